@@ -247,10 +247,31 @@ def check_strip(c, st):
                     return (name + ':equal-but-distinct-elements', '%s(%r, %r) = %r, want %r (the very elements of the input)'
                             % (name, md, mv, g, want))
         st.count('strip_mixed')
+    if c.get('mixedc') is not None:
+        # elements that are themselves containers (rows, points, empty tuples): the value to strip is ONE value, even
+        # when it is a tuple / list / frozenset
+        md, mv = [CONT[i] for i in c['mixedc']], CONT[c['mixedc_value']]
+        lo = 0
+        while lo < len(md) and md[lo] == mv:
+            lo += 1
+        hi = len(md)
+        while hi > 0 and md[hi - 1] == mv:
+            hi -= 1
+        for name, want in (('strip', md[lo:max(lo, hi)]), ('lstrip', md[lo:]), ('rstrip', md[:hi])):
+            got = outcome(lambda: getattr(iu, name)(mk(c['kind'], md), mv))
+            got_i = outcome(lambda: list(getattr(iu, name + '_iter')(mk(c['kind'], md), mv)))
+            st.monitor_evals += 2
+            for g in (got, got_i):
+                if g[0] != 'ok' or [repr(x) for x in g[1]] != [repr(x) for x in want]:
+                    return (name + ':container-elements', '%s(%r, %r) = %r, want %r' % (name, md, mv, g, want))
+        st.count('strip_container_elements')
     if len(set(data)) >= 2:
         st.see(('strip', v, tuple(data)))
     st.count('strip')
     return None
+
+
+CONT = [(), (0, 0), (1,), [], frozenset(), 'a', 0, None, ((),), [0, 0], '', frozenset([0]), (0,)]
 
 
 KEYFNS = {'none': None, 'mod3': (lambda x: x % 3), 'attr:imag': 'imag', 'attr:real': 'real',
@@ -447,6 +468,11 @@ def gen(r):
         if r.random() < 0.3:
             c['mixed'] = [r.choice([0, 0.0, False, 1, True, 1.0, 2, 'a']) for _ in range(r.randint(0, 9))]
             c['mixed_value'] = r.choice([0, 1, 0.0, True])
+        if r.random() < 0.3:
+            c['mixedc'] = [r.randrange(len(CONT)) for _ in range(r.randint(0, 9))]
+            if c['mixedc'] and r.random() < 0.7:
+                c['mixedc'][0] = c['mixedc'][-1] = r.choice([0, 1, 3, 4])
+            c['mixedc_value'] = c['mixedc'][0] if c['mixedc'] and r.random() < 0.7 else r.randrange(len(CONT))
         return c
     if fn == 'group':
         n = r.choice([0, 1, 2, 3, 5, 8, 15])
